@@ -1071,7 +1071,7 @@ func (e *Engine) implTerm(iface types.Type, tag *Term) *Term {
 				return False
 			}
 			if id <= len(e.tagTypes) {
-				return Bool(types.Implements(e.tagTypes[id-1], it))
+				return Bool(e.tagImplements(id, it))
 			}
 		}
 		e.ifaceAsserts[ik] = it
@@ -1442,4 +1442,28 @@ func splitGoal(g *Term) []*Term {
 		return out
 	}
 	return []*Term{g}
+}
+
+// tagImplements: does the dynamic type with this tag implement the interface? Pseudo types
+// registered by name (errors.errorString, fmt's error types) have a known small method set.
+func (e *Engine) tagImplements(id int, it *types.Interface) bool {
+	if t := e.tagTypes[id-1]; t != nil {
+		return types.Implements(t, it)
+	}
+	name := ""
+	for n, i := range e.typeTags {
+		if i == id {
+			name = n
+		}
+	}
+	have := map[string]bool{"Error": true}
+	if name == "*fmt.wrapError" {
+		have["Unwrap"] = true
+	}
+	for i := 0; i < it.NumMethods(); i++ {
+		if !have[it.Method(i).Name()] {
+			return false
+		}
+	}
+	return true
 }
